@@ -38,14 +38,16 @@ Definition model_outcome (m : msg0) (bs : bytes) : N :=
   end.
 
 (** (message, as_vec bytes observed, outcome observed); outcome 2 = as_vec panicked (then no
-    bytes): the model must then not claim the value round-trips *)
+    bytes): the model must then say the value is not encodable ([ty_msg] false); a value that
+    round-trips must be [wf_msg]; a value that is merely too large must still be [ty_msg] *)
 Definition wire_case := (msg0 * bytes * N)%type.
 Definition check_wire (c : wire_case) : bool :=
   let '(m, bs, out) := c in
-  if out =? 2 then negb (wf_msg B0 m)
+  if out =? 2 then negb (ty_msg B0 m)
   else bytes_eqb (as_vec0 m) bs
        && (model_outcome m bs =? out)
-       && (if out =? 0 then wf_msg B0 m else true).
+       && (if out =? 0 then wf_msg B0 m && ty_msg B0 m else true)
+       && (if MAX_MESSAGE_SIZE <? lenN bs then ty_msg B0 m else true).
 
 (** a byte string that is not (necessarily) an encoding: (bytes, kind, index, re-encoded)
     kind 0 = Ok (index = position of the variant in the message list), 1 = Err,
